@@ -153,6 +153,23 @@ class Model:
         if ck in self.eff_cache:
             return self.eff_cache[ck]
         members = self.members(ci)
+        if key[1] in ("get", "set", "del"):
+            # a property is ONE object: the first class in the MRO that defines any accessor of that name provides all
+            # of them; an accessor it neither defines nor takes over from the property it extends does not exist
+            holder = next((k for k in self.mro[ci] if any(n == key[0] for n, _ in self.members(k))), None)
+            if holder is None:
+                self.eff_cache[ck] = None
+                return None
+            if holder != ci:
+                res = self.eff(holder, key)
+                self.eff_cache[ck] = res
+                return res
+            if key not in members:
+                ext = [f.get("extends") for (n, _), f in members.items() if n == key[0] and f.get("extends") is not None]
+                # `@K<owner>.p.setter`: the other accessors are the owner's own function objects, contracts included
+                res = self.eff(ext[0], key) if ext else None
+                self.eff_cache[ck] = res
+                return res
         if key not in members:
             prov = self.provider(ci, key)
             res = None if prov is None else self.eff(prov, key)
